@@ -475,6 +475,12 @@ class Worker:
                     if task.is_descendant_of(addr):
                         return
 
+            if task.return_address not in self._tasks:
+                # The task was cancelled while this step was running (its
+                # mailboxes are gone, so e.g. its own cancel/await calls fail);
+                # the failure of cancelled work is not an error of the job.
+                return
+
             assert self._active_task is not None  # for type checker
 
             # Bubble up errors
